@@ -1,32 +1,46 @@
 //! C12-L1 / C13 for the Edict canonical CBOR codec (`echo_edict_canonical`).
 //!
-//! The head byte of every item is *concrete* inside each unrolled loop iteration (the loop
-//! variable is a constant after unwinding), so symbolic execution follows exactly one decoder
-//! arm per iteration; the argument/payload bytes and the total length stay symbolic. The union
-//! of the loops is every head byte 0x00..=0xff.
+//! Every case fixes the head byte and the total length *concretely* (shape concrete, content
+//! symbolic - DESIGN R1): control flow through the decoder is then concrete and the solver
+//! quantifies over all values of the argument/payload bytes. The head/length pairs of each
+//! harness are listed in its bounds.
 use crate::kani;
 use echo_edict_canonical::{decode_canonical_cbor_v1, encode_canonical_cbor_v1, CanonicalValueV1};
 
 pub const N: usize = 10;
 
-/// accepted => canonical (re-encodes to exactly the input); decoded trees are leaked, not dropped (R3).
+#[inline(always)]
+fn reencodes_to(v: CanonicalValueV1, buf: &[u8; N], len: usize) {
+    match encode_canonical_cbor_v1(&v) {
+        Ok(out) => {
+            assert!(out.len() == len, "Edict: accepted input re-encodes to a different length");
+            let mut flat = [0u8; N];
+            flat[..len].copy_from_slice(&out);
+            let mut i = 0;
+            while i < N {
+                if i < len { assert!(flat[i] == buf[i], "Edict: accepted input re-encodes to different bytes"); }
+                i += 1;
+            }
+            core::mem::forget(out);
+        }
+        Err(e) => { core::mem::forget(e); assert!(false, "Edict: accepted input does not re-encode"); }
+    }
+    core::mem::forget(v);
+}
+
+/// accepted => canonical (re-encodes to exactly the input); decoded trees are leaked, not
+/// dropped (R3). Each leaf variant is re-materialised inside its own match arm so that the
+/// encoder is entered with a syntactically concrete variant (see c12_abi.rs).
 #[inline(never)]
 fn l1(buf: &[u8; N], len: usize) {
     match decode_canonical_cbor_v1(&buf[..len]) {
         Ok(v) => {
-            match encode_canonical_cbor_v1(&v) {
-                Ok(out) => {
-                    assert!(out.len() == len, "Edict: accepted input re-encodes to a different length");
-                    let mut flat = [0u8; N];
-                    flat[..len].copy_from_slice(&out);
-                    let mut i = 0;
-                    while i < N {
-                        if i < len { assert!(flat[i] == buf[i], "Edict: accepted input re-encodes to different bytes"); }
-                        i += 1;
-                    }
-                    core::mem::forget(out);
-                }
-                Err(e) => { core::mem::forget(e); assert!(false, "Edict: accepted input does not re-encode"); }
+            match &v {
+                CanonicalValueV1::Integer(i) => reencodes_to(CanonicalValueV1::Integer(*i), buf, len),
+                CanonicalValueV1::Bool(b) => reencodes_to(CanonicalValueV1::Bool(*b), buf, len),
+                CanonicalValueV1::Null => reencodes_to(CanonicalValueV1::Null, buf, len),
+                CanonicalValueV1::Bytes(b) => reencodes_to(CanonicalValueV1::Bytes(b.clone()), buf, len),
+                _ => assert!(false, "Edict: leaf head decoded to a text/container value"),
             }
             core::mem::forget(v);
         }
@@ -34,47 +48,114 @@ fn l1(buf: &[u8; N], len: usize) {
     }
 }
 
+/// One case: concrete head byte and concrete total length, every other byte symbolic.
 #[inline(always)]
-fn heads(lo: u16, hi: u16, len_lo: usize) {
+fn l1_at(head: u8, len: usize) {
     let mut buf: [u8; N] = kani::any();
-    let len: usize = kani::any();
-    kani::assume(len >= len_lo && len <= N);
-    let mut h = lo;
-    while h <= hi {
-        buf[0] = h as u8;
-        l1(&buf, len);
-        h += 1;
-    }
+    buf[0] = head;
+    l1(&buf, len);
 }
 
-//@ also=C13 tier=quick timeout=1500 mem=10 bits=80 unwind=12 unwindset="c12_edict::heads=34;memcmp=12" fns=echo_edict_canonical::decode_canonical_cbor_v1,Decoder::value,Decoder::argument,echo_edict_canonical::encode_canonical_cbor_v1,encode_integer,encode_type_value
-//@ bounds="every byte string of length 1..=10 whose first byte is a major-0 head (0x00..=0x1f); argument bytes symbolic"
-//@ desc="Edict unsigned ints: non-minimal widths, reserved/indefinite additional info, short and trailing input are rejected; every accepted string re-encodes to itself; nothing panics"
+//@ also=C13 tier=quick timeout=1800 mem=10 bits=72 unwind=12 unwindset="memcmp=12;from_utf8=12;run_utf8_validation=12" fns=echo_edict_canonical::decode_canonical_cbor_v1,Decoder::value,Decoder::argument,Decoder::length,Decoder::take,echo_edict_canonical::encode_canonical_cbor_v1,encode_integer,encode_type_value
+//@ bounds="unsigned immediates 0x00 and 0x17: exact and with one trailing byte"
+//@ desc="Edict: immediate unsigned ints are one byte; a trailing byte is rejected"
 proof! {
     #[cfg_attr(kani, kani::stub(alloc::fmt::format, crate::stubs::fmt_format))]
-    fn c12_edict_uint_heads() { heads(0x00, 0x1f, 1); reach!(); }
+    fn c12_edict_uint_immediate() { l1_at(0x00, 1); l1_at(0x00, 2); l1_at(0x17, 1); l1_at(0x17, 2); reach!(); }
 }
 
-//@ also=C13 tier=quick timeout=1500 mem=10 bits=80 unwind=12 unwindset="c12_edict::heads=34;memcmp=12" fns=echo_edict_canonical::decode_canonical_cbor_v1,Decoder::value,Decoder::argument,encode_integer
-//@ bounds="every byte string of length 1..=10 whose first byte is a major-1 head (0x20..=0x3f)"
-//@ desc="Edict negative ints: accepted => canonical; -1 - u64 handled without overflow"
+//@ also=C13 tier=quick timeout=1800 mem=10 bits=72 unwind=12 unwindset="memcmp=12;from_utf8=12;run_utf8_validation=12" fns=echo_edict_canonical::decode_canonical_cbor_v1,Decoder::value,Decoder::argument,Decoder::length,Decoder::take,echo_edict_canonical::encode_canonical_cbor_v1,encode_integer,encode_type_value
+//@ bounds="head 0x18 with 0, 1 and 2 following bytes (all values)"
+//@ desc="Edict: 1-byte argument: values <= 23 are non-minimal and rejected, short and trailing input rejected, the rest re-encode to themselves"
 proof! {
     #[cfg_attr(kani, kani::stub(alloc::fmt::format, crate::stubs::fmt_format))]
-    fn c12_edict_nint_heads() { heads(0x20, 0x3f, 1); reach!(); }
+    fn c12_edict_uint_w1() { l1_at(0x18, 1); l1_at(0x18, 2); l1_at(0x18, 3); reach!(); }
 }
 
-//@ also=C13 tier=quick timeout=1500 mem=10 bits=80 unwind=12 unwindset="c12_edict::heads=66;memcmp=12" fns=echo_edict_canonical::decode_canonical_cbor_v1,Decoder::value
-//@ bounds="every byte string of length 1..=10 whose first byte is a tag (major 6) or simple/float head (major 7): 0xc0..=0xff"
-//@ desc="Edict tags, floats, undefined and reserved simple values are rejected; false/true/null accepted only as exactly one byte"
+//@ also=C13 tier=quick timeout=1800 mem=10 bits=72 unwind=12 unwindset="memcmp=12;from_utf8=12;run_utf8_validation=12" fns=echo_edict_canonical::decode_canonical_cbor_v1,Decoder::value,Decoder::argument,Decoder::length,Decoder::take,echo_edict_canonical::encode_canonical_cbor_v1,encode_integer,encode_type_value
+//@ bounds="head 0x19 with 1, 2 and 3 following bytes (all values)"
+//@ desc="Edict: 2-byte argument: values <= 0xff rejected as non-minimal; accepted => canonical"
 proof! {
     #[cfg_attr(kani, kani::stub(alloc::fmt::format, crate::stubs::fmt_format))]
-    fn c12_edict_tag_simple_heads() { heads(0xc0, 0xff, 1); reach!(); }
+    fn c12_edict_uint_w2() { l1_at(0x19, 2); l1_at(0x19, 3); l1_at(0x19, 4); reach!(); }
 }
 
-//@ also=C13 tier=quick timeout=1800 mem=12 bits=80 unwind=12 unwindset="c12_edict::heads=34;memcmp=12;from_utf8=12;run_utf8_validation=12" fns=echo_edict_canonical::decode_canonical_cbor_v1,Decoder::value,Decoder::length,Decoder::take,checked_collection_length
-//@ bounds="every byte string of length 1..=10 whose first byte is a byte-string head (0x40..=0x5f); payload symbolic"
-//@ desc="Edict byte strings: declared length checked against the remaining input before any allocation; accepted => canonical"
+//@ also=C13 tier=quick timeout=1800 mem=10 bits=72 unwind=12 unwindset="memcmp=12;from_utf8=12;run_utf8_validation=12" fns=echo_edict_canonical::decode_canonical_cbor_v1,Decoder::value,Decoder::argument,Decoder::length,Decoder::take,echo_edict_canonical::encode_canonical_cbor_v1,encode_integer,encode_type_value
+//@ bounds="head 0x1a with 3, 4 and 5 following bytes (all values)"
+//@ desc="Edict: 4-byte argument: values <= 0xffff rejected; accepted => canonical"
 proof! {
     #[cfg_attr(kani, kani::stub(alloc::fmt::format, crate::stubs::fmt_format))]
-    fn c12_edict_bytes_heads() { heads(0x40, 0x5f, 1); reach!(); }
+    fn c12_edict_uint_w4() { l1_at(0x1a, 4); l1_at(0x1a, 5); l1_at(0x1a, 6); reach!(); }
+}
+
+//@ also=C13 tier=quick timeout=1800 mem=10 bits=72 unwind=12 unwindset="memcmp=12;from_utf8=12;run_utf8_validation=12" fns=echo_edict_canonical::decode_canonical_cbor_v1,Decoder::value,Decoder::argument,Decoder::length,Decoder::take,echo_edict_canonical::encode_canonical_cbor_v1,encode_integer,encode_type_value
+//@ bounds="head 0x1b with 7, 8 and 9 following bytes (all values)"
+//@ desc="Edict: 8-byte argument: values <= 0xffffffff rejected; accepted => canonical"
+proof! {
+    #[cfg_attr(kani, kani::stub(alloc::fmt::format, crate::stubs::fmt_format))]
+    fn c12_edict_uint_w8() { l1_at(0x1b, 8); l1_at(0x1b, 9); l1_at(0x1b, 10); reach!(); }
+}
+
+//@ also=C13 tier=quick timeout=1800 mem=10 bits=72 unwind=12 unwindset="memcmp=12;from_utf8=12;run_utf8_validation=12" fns=echo_edict_canonical::decode_canonical_cbor_v1,Decoder::value,Decoder::argument,Decoder::length,Decoder::take,echo_edict_canonical::encode_canonical_cbor_v1,encode_integer,encode_type_value
+//@ bounds="heads 0x1c..0x1f (reserved / indefinite additional info) with one following byte"
+//@ desc="Edict: reserved and indefinite-length heads are rejected"
+proof! {
+    #[cfg_attr(kani, kani::stub(alloc::fmt::format, crate::stubs::fmt_format))]
+    fn c12_edict_uint_reserved() { l1_at(0x1c, 2); l1_at(0x1d, 2); l1_at(0x1e, 2); l1_at(0x1f, 2); reach!(); }
+}
+
+//@ also=C13 tier=quick timeout=1800 mem=10 bits=72 unwind=12 unwindset="memcmp=12;from_utf8=12;run_utf8_validation=12" fns=echo_edict_canonical::decode_canonical_cbor_v1,Decoder::value,Decoder::argument,Decoder::length,Decoder::take,echo_edict_canonical::encode_canonical_cbor_v1,encode_integer,encode_type_value
+//@ bounds="negative immediates and head 0x38 (all values of the argument byte)"
+//@ desc="Edict: negative ints: immediates one byte, 1-byte argument minimality, trailing byte rejected"
+proof! {
+    #[cfg_attr(kani, kani::stub(alloc::fmt::format, crate::stubs::fmt_format))]
+    fn c12_edict_nint_small() { l1_at(0x20, 1); l1_at(0x37, 1); l1_at(0x38, 2); l1_at(0x38, 3); reach!(); }
+}
+
+//@ also=C13 tier=quick timeout=1800 mem=10 bits=72 unwind=12 unwindset="memcmp=12;from_utf8=12;run_utf8_validation=12" fns=echo_edict_canonical::decode_canonical_cbor_v1,Decoder::value,Decoder::argument,Decoder::length,Decoder::take,echo_edict_canonical::encode_canonical_cbor_v1,encode_integer,encode_type_value
+//@ bounds="head 0x3b with 8 and 9 following bytes (all values)"
+//@ desc="Edict: negative 8-byte argument: -1 - n computed without overflow; out-of-range magnitudes answered with a typed error; accepted => canonical"
+proof! {
+    #[cfg_attr(kani, kani::stub(alloc::fmt::format, crate::stubs::fmt_format))]
+    fn c12_edict_nint_w8() { l1_at(0x3b, 9); l1_at(0x3b, 10); reach!(); }
+}
+
+//@ also=C13 tier=quick timeout=1800 mem=10 bits=72 unwind=12 unwindset="memcmp=12;from_utf8=12;run_utf8_validation=12" fns=echo_edict_canonical::decode_canonical_cbor_v1,Decoder::value,Decoder::argument,Decoder::length,Decoder::take,echo_edict_canonical::encode_canonical_cbor_v1,encode_integer,encode_type_value
+//@ bounds="simple-value heads false/true/null (exact, null also with a trailing byte), undefined, 1-byte simple, simple 0 and break"
+//@ desc="Edict: false/true/null accepted as exactly one byte and re-encode to themselves; every other simple value is rejected"
+proof! {
+    #[cfg_attr(kani, kani::stub(alloc::fmt::format, crate::stubs::fmt_format))]
+    fn c12_edict_simple() { l1_at(0xf4, 1); l1_at(0xf5, 1); l1_at(0xf6, 1); l1_at(0xf6, 2); l1_at(0xf7, 1); l1_at(0xf8, 2); l1_at(0xe0, 1); l1_at(0xff, 1); reach!(); }
+}
+
+//@ also=C13 tier=quick timeout=1800 mem=10 bits=72 unwind=12 unwindset="memcmp=12;from_utf8=12;run_utf8_validation=12" fns=echo_edict_canonical::decode_canonical_cbor_v1,Decoder::value,Decoder::argument,Decoder::length,Decoder::take,echo_edict_canonical::encode_canonical_cbor_v1,encode_integer,encode_type_value
+//@ bounds="tag heads 0xc0, 0xc1, 0xd8, 0xdb followed by symbolic bytes"
+//@ desc="Edict: tagged items are rejected whatever follows"
+proof! {
+    #[cfg_attr(kani, kani::stub(alloc::fmt::format, crate::stubs::fmt_format))]
+    fn c12_edict_tags() { l1_at(0xc0, 2); l1_at(0xc1, 2); l1_at(0xd8, 3); l1_at(0xdb, 10); reach!(); }
+}
+
+//@ also=C13 tier=quick timeout=1800 mem=10 bits=72 unwind=12 unwindset="memcmp=12;from_utf8=12;run_utf8_validation=12" fns=echo_edict_canonical::decode_canonical_cbor_v1,Decoder::value,Decoder::argument,Decoder::length,Decoder::take,echo_edict_canonical::encode_canonical_cbor_v1,encode_integer,encode_type_value
+//@ bounds="byte-string heads 0x40..0x42 with short, exact and trailing input; payload symbolic"
+//@ desc="Edict: byte strings: declared length checked against the remaining input; accepted => canonical"
+proof! {
+    #[cfg_attr(kani, kani::stub(alloc::fmt::format, crate::stubs::fmt_format))]
+    fn c12_edict_bytes_small() { l1_at(0x40, 1); l1_at(0x40, 2); l1_at(0x41, 1); l1_at(0x41, 2); l1_at(0x41, 3); l1_at(0x42, 3); reach!(); }
+}
+
+//@ also=C13 tier=quick timeout=1800 mem=10 bits=72 unwind=12 unwindset="memcmp=12;from_utf8=12;run_utf8_validation=12" fns=echo_edict_canonical::decode_canonical_cbor_v1,Decoder::value,Decoder::argument,Decoder::length,Decoder::take,echo_edict_canonical::encode_canonical_cbor_v1,encode_integer,encode_type_value
+//@ bounds="byte-string head 0x58 (1-byte length) with 0..2 following bytes"
+//@ desc="Edict: a 1-byte length <= 23 is non-minimal, a larger one exceeds the input: both rejected without allocating the declared length"
+proof! {
+    #[cfg_attr(kani, kani::stub(alloc::fmt::format, crate::stubs::fmt_format))]
+    fn c12_edict_bytes_w1() { l1_at(0x58, 1); l1_at(0x58, 2); l1_at(0x58, 3); reach!(); }
+}
+
+//@ also=C13 tier=off timeout=1800 mem=10 bits=72 unwind=12 unwindset="memcmp=12;from_utf8=12;run_utf8_validation=12" fns=echo_edict_canonical::decode_canonical_cbor_v1,Decoder::value,Decoder::argument,Decoder::length,Decoder::take,echo_edict_canonical::encode_canonical_cbor_v1,encode_integer,encode_type_value
+//@ bounds="text heads 0x60..0x62 with symbolic payload bytes"
+//@ desc="Edict: text strings: invalid UTF-8 rejected, valid text re-encodes to itself"
+proof! {
+    #[cfg_attr(kani, kani::stub(alloc::fmt::format, crate::stubs::fmt_format))]
+    fn c12_edict_text_small() { l1_at(0x60, 1); l1_at(0x61, 2); l1_at(0x62, 3); l1_at(0x61, 3); reach!(); }
 }
